@@ -424,7 +424,9 @@ func (s *simscreen) SetSize(w, h int) {
 	s.cursorx, s.cursory = -1, -1
 	s.physw, s.physh = w, h
 	s.front = newc
-	s.back.Resize(w, h)
+	// like a real terminal: the size change is noticed by resize(),
+	// which resizes the logical buffer and posts the resize event
+	s.resize()
 	s.Unlock()
 }
 
